@@ -22,6 +22,8 @@ def setErr (v : ErrVal) : Item → Item
       (match rs with | .err _ => .err v | r => r)
   | .connectBlind d rq rs => .connectBlind d (match rq with | .err _ => .err v | .errSkip _ => .errSkip v | q => q)
       (match rs with | .err _ => .err v | r => r)
+  | .connectMitmFail rq rs => .connectMitmFail (match rq with | .err _ => .err v | .errSkip _ => .errSkip v | q => q)
+      (match rs with | .err _ => .err v | r => r)
 
 /-- The same item with modifiers that return nil instead of an error. -/
 def noErr : Item → Item
@@ -30,6 +32,8 @@ def noErr : Item → Item
   | .connectMitm t rq rs => .connectMitm t (match rq with | .err _ => .pass | .errSkip _ => .skip | q => q)
       (match rs with | .err _ => .pass | r => r)
   | .connectBlind d rq rs => .connectBlind d (match rq with | .err _ => .pass | .errSkip _ => .skip | q => q)
+      (match rs with | .err _ => .pass | r => r)
+  | .connectMitmFail rq rs => .connectMitmFail (match rq with | .err _ => .pass | .errSkip _ => .skip | q => q)
       (match rs with | .err _ => .pass | r => r)
 
 /-- Drop the Warning events of the two modifier sides. -/
@@ -57,6 +61,7 @@ theorem handle_ignores_error_value (sd : Bool) (s : St) (i c : Nat) (v : ErrVal)
   | x rc rq rs org => cases rq <;> cases rs <;> simp [setErr, handleItem, handleX, pre, rqErr, rqSkip, rsErr]
   | connectMitm t rq rs => cases rq <;> cases rs <;> simp [setErr, handleItem, handleMitm, pre, rqErr, rqSkip, rsErr]
   | connectBlind d rq rs => cases rq <;> cases rs <;> simp [setErr, handleItem, handleBlind, pre, rqErr, rqSkip, rsErr]
+  | connectMitmFail rq rs => cases rq <;> cases rs <;> simp [setErr, handleItem, handleMitmFail, pre, rqErr, rqSkip, rsErr]
 
 /-- **Whatever value a modifier's error is, the connection behaves the same**: replacing every
 modifier error of a script by any one value `v` - `io.EOF`, a timeout, … - leaves the whole trace
@@ -84,6 +89,8 @@ theorem handle_error_only_adds_warning (sd : Bool) (s : St) (i c : Nat) (it : It
   | connectBlind d rq rs =>
     cases rq <;> cases rs <;> cases d <;>
       simp [noErr, handleItem, handleBlind, pre, rqErr, rqSkip, rsErr, stripWarn, List.filter_cons]
+  | connectMitmFail rq rs =>
+    cases rq <;> cases rs <;> simp [noErr, handleItem, handleMitmFail, pre, rqErr, rqSkip, rsErr, stripWarn, List.filter_cons]
 
 /-- **A modifier error only adds the Warning; processing continues**: the trace of a connection whose
 modifiers return errors is, Warning events aside, the trace of the same connection with modifiers
